@@ -1,4 +1,5 @@
 import LexgenModel.Proofs.NextProtocol
+import LexgenModel.Proofs.Accounting
 import LexgenModel.Proofs.RefRefine
 /-!
 # C05 — End-of-input protocol (model part): fused stream, `$` matches via the end-of-input symbol
@@ -29,5 +30,15 @@ theorem C05_refines_reference (items : LexerDef) (c : Compiled) (h : compileLexe
     (r : Option (Item τ ε) × LState σ) (hn : next (c.config actions width input) st = some r) :
     RefNext items c ctxAt (c.config actions width input) st r :=
   next_refines_ref items c h hok ctxAt hnum actions width input st hr r hn
+
+/-- **Accounting.** Over any number of calls from a fresh lexer on a well-formed machine: no call is stuck; every returned token/error has a
+character index span that begins at or after the position where the previous item ended and ends at the position its call reached
+(`0 ≤ i₁ ≤ j₁ ≤ i₂ ≤ j₂ ≤ … ≤ q ≤ |input|`); once `None` has been returned only `None`s follow; and if some call returned `None` the whole
+input was consumed — end-of-input is handled exactly once, when everything has been read. -/
+theorem C05_accounting (cfg : Config σ τ ε) (hm : MachineOK cfg) (user : σ) (input : List Nat) (n : Nat) :
+    ∃ start q, AtPos cfg.width input (runN cfg n (initState user input)).2 start q ∧
+      Ordered cfg.width input 0 (runN cfg n (initState user input)).1 q ∧
+      (some none ∈ (runN cfg n (initState user input)).1 → q = input.length) :=
+  runN_spans_ordered cfg hm user input n
 
 end Lexgen
